@@ -29,7 +29,7 @@ ASSUMPTIONS = ['an invariant over single calls; argument-shape breadth is input 
                'a lambda that itself calls a mutator is the lambda\'s doing (not generated in the own workload)']
 REAL = ['smartquery.functions (every table entry)', 'evaluator']
 STUB = ['host (owner of the objects passed in)', 'entropy source']
-REACH_PROBES = ('big_nested_host_list', 'failed_multiline_parse', 'builtin_raised_with_container_arg', 'pipeline', 'host_defaultdict_arg', 'key_function', 'every_nonmutator_called', 'ast_built_lambda_over_records')
+REACH_PROBES = ('big_nested_host_list', 'failed_multiline_parse', 'builtin_raised_with_container_arg', 'pipeline', 'host_defaultdict_arg', 'key_function', 'every_nonmutator_called', 'ast_built_lambda_over_records', 'mutator_on_fresh_result')
 
 
 def _world(r):
@@ -50,6 +50,22 @@ def generate(seed, tier):
             ops.append({'op': 'src', 'src': ro.choice(['get(BIGD, "series") | len', 'BIGD["series"] | len', '(BIGD | values) | max | len',
                                                        '(BIGD | values) | reduce((p, q) => p) | len', 'BIGD | get("series") | index_of(3)',
                                                        '[BIGD["series"]] | min | len', 'BIGD | items | len']), 'entropy': 1})
+            continue
+        if x < 0.055 and x >= 0.03:
+            # a mutator applied to the RESULT of a non-mutator that hands out a new container (sorted, reversed, shuffle, map,
+            # filter, keys, values, items, enumerate, split, list): the temporary changes, the host's objects do not -
+            # also when they hold 0 or 1 elements
+            f = ro.choice(['sorted', 'reversed', 'shuffle', 'filter', 'map', 'keys', 'values', 'items', 'enumerate'])
+            arg = ro.choice(['ONE', 'E', 'L', 'D1', 'ED', 'D'])
+            if f in ('keys', 'values', 'items') and arg in ('ONE', 'E', 'L'):
+                arg = ro.choice(['D1', 'ED', 'D'])
+            if f in ('reversed', 'shuffle', 'filter', 'enumerate') and arg in ('D1', 'ED', 'D'):
+                arg = ro.choice(['ONE', 'E', 'L'])
+            inner = {'filter': 'filter(%s, v => True)', 'map': 'map(%s, v => v)' if arg in ('ONE', 'E', 'L') else 'map(%s, (k, v) => v)'}.get(f, f + '(%s)') % arg
+            mut = ro.choice(['push(%s, 1)', '%s | push(2)', 'insert(%s, 0, 9)', 'pop(%s)', '%s | remove(7)', '(%s)[0] = 5', 'del (%s)[0]'])
+            if f == 'sorted' and arg in ('D1', 'ED', 'D'):
+                mut = ro.choice(['remove(%s, "k")', '(%s)["n"] = 1', 'del (%s)["k"]'])
+            ops.append({'op': 'src', 'fresh_temp': True, 'entropy': 1, 'src': mut % inner})
             continue
         if x < 0.03:
             # the host hands over a lambda built as a syntax tree (ast_names) whose body is a small PROGRAM - it assigns to
@@ -96,6 +112,9 @@ def _build(op, nonmut, table_names, extra):
 
 def execute(case, ctx):
     names = {k: lang.dec_value(v) for k, v in case['world']['names'].items()}
+    names['ONE'] = [7]
+    names['D1'] = {'k': 1}
+    names['ED'] = {}
     extra = []
     if case['world'].get('defaultdict'):
         dd = collections.defaultdict(list)
@@ -152,9 +171,12 @@ def execute(case, ctx):
         says_mutator = op.get('bad') is None and (tree is not None and any(n in monitors.MUTATORS for n in lang.names_in(tree)))
         if op['op'] == 'src' and not op.get('bad'):
             says_mutator = False
+        if op.get('fresh_temp'):
+            ctx.probe('mutator_on_fresh_result')
         if after != before and not says_mutator and not any(f[0] == 'missing_store_skipped' for f in rec.findings):
-            ctx.report('host_object_modified', 'step %d %r: no mutator ran, yet the host\'s objects changed: before %s, after %s' % (
-                step, src[:200], hooks._short(before), hooks._short(after)), {'kind': 'host_object_modified', 'builtin': used[0]})
+            ctx.report('host_object_modified', 'step %d %r: %s, yet the host\'s objects changed: before %s, after %s' % (
+                step, src[:200], 'the only mutator worked on the new container a non-mutator returned' if op.get('fresh_temp') else 'no mutator ran',
+                hooks._short(before), hooks._short(after)), {'kind': 'host_object_modified', 'builtin': used[0]})
         for nm in rec.builtin_calls:
             ctx.stats['called:' + nm] += rec.builtin_calls[nm]
             called.add(nm)
